@@ -12,7 +12,9 @@ CLAUSES = (
     'opposite deque ends; TaskPool.count_active_tasks counts every task that '
     'is waiting_on_job_prep or preparing/submitted/running; released tasks '
     'are marked waiting_on_job_prep and un-queued; push_task_if_limited is '
-    'only used by the manual-trigger path. Not decided: unique-membership '
+    'only used by the manual-trigger path. '
+    'The queued flag is written only by TaskState (never copied to a reload successor). '
+    'Not decided: unique-membership '
     'resolution of overlapping queue configs (_make_indep).')
 
 Q = 'task_queues.independent'
